@@ -14,6 +14,16 @@ CLAIMED = {
             "tokio Notify semantics are modelled (registered set); hangs are observed as bounded-time timeouts; blake3-free.",
             "5.9, 6 C20"),
 }
+CLAIMED["C12"] = ("ChunkCache",
+    "TLC model checking of ChunkCache.tla (lock/file-system granularity, damage and re-open); TLC-generated and random gate-controlled schedules, sequential damage histories and a per-byte fault enumeration replayed on DiskCache; traces validated against Trace_ChunkCache.tla",
+    "Exhaustive model checking of the cache protocol (2 threads; damage/plant/delete/re-open environment) with HitsGood, plus conformance: every hit recorded from the real DiskCache carries the interned chunk ids and offsets, which the trace spec compares with the content table; every open/crc outcome must be the one the model predicts from the damage the harness applied; fault enumeration covers a burst error at every byte, truncation to every length, extension, deletion and junk names at every directory level.",
+    "crc32 burst-detection property assumed; data for distinct chunks distinct; free-running traces validated without file-system prediction.",
+    "5.7, 6 C12")
+CLAIMED["C13"] = ("ChunkCache",
+    "TLC model checking of ChunkCache.tla (AccountingExact, NoOrphanFiles, CapacityBound; negative control FixDrift=FALSE); gate-controlled schedules incl. identical concurrent puts replayed on DiskCache; counters logged under the state lock validated against Trace_ChunkCache.tla",
+    "Exhaustive model checking of every interleaving of two threads at lock/file-system granularity, plus conformance: every commit / removal event carries num_items and total_bytes read under the lock and must equal the model's values; quiescent directory listings must contain no file the model does not track and, after read-back, must equal the tracked set and byte total.",
+    "eviction choice and find_match choice are logged, not predicted; I/O errors may end any operation.",
+    "5.7, 6 C13")
 PENDING_REASON = "check not built yet in this round (planned in DESIGN.md section 6); no claim is made"
 
 checks = []
